@@ -196,7 +196,9 @@ func genTime(r *common.Rng, mode int) time.Time {
 	case 0:
 		return time.Time{}
 	case 1:
-		switch r.Intn(6) {
+		switch r.Intn(7) {
+		case 6:
+			return time.Unix(-5, 5).UTC() // before the epoch, with a nanosecond part
 		case 0:
 			return time.Unix(0, 0).UTC()
 		case 1:
